@@ -173,7 +173,7 @@ func shapes() []shape {
 		// px.AddTypes of a type set (members, object member with constructor) and of an object type, between lookups and
 		// definitions of the names they bind
 		{"addtypes-chain", 0, false, seq(newDep(), newParented(1), newParented(2)), []int{2, 3},
-			[]tname{tn("type", "Foo::Bus"), tn("constructor", "foo::bus"), tn("type", "Foo::Zed"), tn("type", "Foo")}, []int{10}, []predT{allPred()}, [][]int{{0}, {6}, {4}}},
+			[]tname{tn("type", "Foo::Bus"), tn("constructor", "foo::bus"), tn("type", "Foo")}, []int{10}, []predT{allPred()}, [][]int{{0}, {6}, {4}}},
 		{"addtypes-nested", 1, true, seq(newDep(), newParented(1), newTypeSet(2, 2)), []int{2, 3},
 			[]tname{tn("type", "A::Sub::X"), tn("type", "A::Sub"), tn("constructor", "A::Sub::X"), tn("type", "A::B"), tn("type", "Sub::X")}, []int{8}, []predT{allPred()}, [][]int{{2}, {2, 5}}},
 	}
@@ -220,7 +220,7 @@ func (s shape) observers() []opT {
 
 func (r *runner) exhaustive() {
 	cf := newCases()
-	coqBudget := 260
+	coqBudget := 230
 	if r.cfg.Thorough() {
 		coqBudget = 1800
 	}
@@ -391,7 +391,7 @@ func randomHistory(r *lib.Rng, n int) []opT {
 
 func (r *runner) random(rng *lib.Rng) {
 	// the histories sent to the model are spread over several files (evaluated in parallel by the driver)
-	n, files, perFile := 12000, 2, 70
+	n, files, perFile := 12000, 2, 56
 	if r.cfg.Thorough() {
 		n, files, perFile = 400000, 6, 400
 	}
